@@ -13,6 +13,7 @@ import (
 	"vharness/app"
 	"vharness/apps"
 	"vharness/c07"
+	"vharness/c17"
 	"vharness/vrt"
 )
 
@@ -77,9 +78,19 @@ func Hist(v *vrt.Ctx) {
 		for _, b := range in {
 			highByte = v.Or(highByte, b >= 0x80)
 		}
+		codeBefore, depthBefore := string(st.Code), len(st.ExecPath)
 		cont, err := en.Exec(ctx, in)
 		v.Observe("cont", cont)
 		v.Observe("err", err)
+		if i > 0 && (len(in) > 255 || (len(in) > 0 && !c17.DocumentedFormat(v, in))) {
+			// input the engine must refuse (too long, or not of the documented
+			// format): the session is as it was, pending code included, and
+			// the history goes on
+			v.Assert(err != nil, "C08/refused-input-is-an-error")
+			v.Assert(string(st.Code) == codeBefore && len(st.ExecPath) == depthBefore, "C08/refused-input-does-not-damage-the-session")
+			v.Cover("C08/refused-input")
+			continue
+		}
 		w := &app.Sink{}
 		en.Flush(ctx, w)
 		v.Observe("out", w.S)
